@@ -104,6 +104,8 @@ def uup_zero_flag(cfg):
 def outputs_with_unknown(obs):
     """names of the observed outputs that contain an unliftable finite value ([1, 0])"""
     def has(x):
+        if isinstance(x, opsdrive.Entries):         # [row cell, col cell, value]: only the value can be a marker
+            return any(e[2] == [1, 0] for e in x)
         if isinstance(x, list):
             if len(x) == 2 and x[0] == 1 and x[1] == 0:
                 return True
@@ -111,7 +113,7 @@ def outputs_with_unknown(obs):
         if isinstance(x, dict):
             return any(has(v) for v in x.values())
         return False
-    return {k for k, v in obs.items() if has(v)}
+    return {k for k, v in obs.items() if k != "meshindex" and has(v)}
 
 
 def replay_clauses(prop, cfg):
